@@ -127,12 +127,6 @@ def binop(ex, state, op, a, b, inplace=False):
                 if isinstance(op, ast.BitOr):
                     return VBool(z3.Or(a.t, b.t))
                 return VBool(z3.Xor(a.t, b.t))
-            bva, bvb = getattr(a, "bv", None), getattr(b, "bv", None)
-            if bva is not None and bvb is not None and bva.size() == bvb.size():
-                r = bva & bvb if isinstance(op, ast.BitAnd) else (bva | bvb if isinstance(op, ast.BitOr) else bva ^ bvb)
-                v = VInt(z3.BV2Int(r))
-                v.bv = r
-                return v
             xv, yv = ival(x), ival(y)
             if xv is not None and yv is not None:
                 r = xv & yv if isinstance(op, ast.BitAnd) else (xv | yv if isinstance(op, ast.BitOr) else xv ^ yv)
@@ -144,8 +138,14 @@ def binop(ex, state, op, a, b, inplace=False):
             elif yv is not None:
                 raise Unsupported("bit op with negative constant")
             else:
-                w = ex.reg.bitwidth_hint(ex.unit_name)
-                andc = bit_and_sym(ex, state, x, y, w)
+                # both operands symbolic: octet-wide bit operation as an application of the defined function
+                # bxor8/band8/bor8 (natives); operands must be octets (obligation), result is an octet
+                from . import natives
+                ex.oblige("bitwidth", state, z3.And(x >= 0, x <= 255, y >= 0, y <= 255))
+                fn = natives.band8 if isinstance(op, ast.BitAnd) else (natives.bor8 if isinstance(op, ast.BitOr) else natives.bxor8)
+                r = fn(x, y)
+                state.assume(z3.And(r >= 0, r <= 255))
+                return VInt(r)
             if isinstance(op, ast.BitAnd):
                 return VInt(andc)
             if isinstance(op, ast.BitOr):
@@ -167,6 +167,9 @@ def binop(ex, state, op, a, b, inplace=False):
         raise Unsupported("float op %s" % type(op).__name__)
     if ka == kb == "bytes" and isinstance(op, ast.Add):
         return VBytes(z3.Concat(a.t, b.t))
+    if ka == kb == "abytes" and isinstance(op, ast.Add):
+        k = z3.Int(fresh_name("cat_k"))
+        return VABytes(z3.Lambda([k], z3.If(k < a.n, z3.Select(a.arr, k), z3.Select(b.arr, k - a.n))), simp(a.n + b.n))
     if ka == kb == "str" and isinstance(op, ast.Add):
         return VStr(z3.Concat(a.t, b.t))
     if ka == "str" and isinstance(op, ast.Mod):
@@ -399,15 +402,24 @@ def get_item(ex, state, v, k):
         i = ex.num(k)
         n = z3.Length(v.t)
         ex.raise_if(state, z3.Or(i >= n, i < -n), "IndexError")
-        j = simp(norm_index(i, n))
+        j = ex.index_term(state, i, n)
         if isinstance(v, VBytes):
             cb = const_seq(v.t)
             if cb is not None and len(cb) > 8 and not z3.is_int_value(j):
                 return VInt(z3.Select(const_table(cb), j))
-            e = simp(v.t[j])
+            e = v.t[j]
             state.assume(z3.And(e >= 0, e <= 255))
             return VInt(e)
         return VStr(z3.SubString(v.t, j, 1))
+    if isinstance(v, VABytes):
+        if not isinstance(k, (VInt, VBool)):
+            ex.raise_if(state, z3.BoolVal(True), "TypeError")
+        i = ex.num(k)
+        ex.raise_if(state, z3.Or(i >= v.n, i < -v.n), "IndexError")
+        j = ex.index_term(state, i, v.n)
+        e = z3.Select(v.arr, j)
+        state.assume(z3.And(e >= 0, e <= 255))
+        return VInt(e)
     if isinstance(v, VTuple):
         if isinstance(k, (VInt, VBool)):
             iv = ival(ex.num(k))
@@ -443,7 +455,7 @@ def get_item(ex, state, v, k):
                 return mk_union([(simp(j == idx), it) for idx, it in enumerate(o.items)])
             n = z3.Length(o.seq)
             ex.raise_if(state, z3.Or(i >= n, i < -n), "IndexError")
-            j = simp(norm_index(i, n))
+            j = ex.index_term(state, i, n)
             return value_of_elem(o.elem, o.seq[j])
         if o.kind == "dict":
             from . import models
@@ -451,11 +463,10 @@ def get_item(ex, state, v, k):
         if o.kind == "barray":
             i = ex.num(k)
             ex.raise_if(state, z3.Or(i >= o.n, i < -o.n), "IndexError")
-            j = simp(norm_index(i, o.n))
-            bv = z3.Select(o.arr, j)
-            r = VInt(z3.BV2Int(bv))
-            r.bv = bv
-            return r
+            j = ex.index_term(state, i, o.n)
+            e = z3.Select(o.arr, j)
+            state.assume(z3.And(e >= 0, e <= 255))      # type invariant of array('B') / uint8_t[]
+            return VInt(e)
         if o.kind == "inst":
             m = ex.getattr_atom(state, v, "__getitem__")
             return ex.call(state, m, [k], {})
@@ -565,13 +576,10 @@ def set_item(ex, state, obj, key, v):
         if o.kind == "barray":
             i = ex.num(key)
             ex.raise_if(state, z3.Or(i >= o.n, i < -o.n), "IndexError")
-            j = simp(norm_index(i, o.n))
-            bv = getattr(v, "bv", None)
-            if bv is None:
-                t = ex.num(v)
-                ex.raise_if(state, z3.Or(t < 0, t > 255), "OverflowError")
-                bv = z3.Int2BV(t, 8)
-            o.arr = z3.Store(o.arr, j, bv)
+            j = ex.index_term(state, i, o.n)
+            t = ex.num(v)
+            ex.raise_if(state, z3.Or(t < 0, t > 255), "OverflowError")
+            o.arr = z3.Store(o.arr, j, t)
             return
     if isinstance(obj, VOpaque):
         return
